@@ -93,10 +93,13 @@ func (w *webWriter) WriteHeader(code int) {
 }
 
 func (w *webWriter) Flush() {
-	if w.wroteHeader || w.wroteResp {
-		if f, ok := w.w.(http.Flusher); ok {
-			f.Flush()
-		}
+	// A flush sends the headers like a write does: what is set after it
+	// belongs to the trailer frame.
+	if !w.wroteHeader {
+		w.seeHeaders()
+	}
+	if f, ok := w.w.(http.Flusher); ok {
+		f.Flush()
 	}
 }
 
